@@ -14,7 +14,7 @@ from typing import Any, Dict, List, Optional
 from harness.common import FakeSocket, FakeTransport, VirtualTimeLoop, exc_token, tok_bytes
 from vk.core import Case, Ctx
 
-GEN_MODULES: List[str] = ["C01Ssdp", "C02Recv"]
+GEN_MODULES: List[str] = ["C01Ssdp", "C02Recv", "C02Sites"]
 MANIFEST = {
     "design_ref": "§5 C02",
     "text": ("Lean theorems over a model of the whole SSDP receive path in which every raising primitive is explicit "
@@ -452,6 +452,35 @@ def targeted(rng) -> List[tuple]:
     return out
 
 
+HEADER_NAMES = ["HOST", "CACHE-CONTROL", "LOCATION", "NT", "NTS", "SERVER", "USN", "ST", "MAN", "MX", "EXT", "DATE", "OPT", "01-NLS",
+                "BOOTID.UPNP.ORG", "CONFIGID.UPNP.ORG", "NEXTBOOTID.UPNP.ORG", "SEARCHPORT.UPNP.ORG", "SECURELOCATION.UPNP.ORG",
+                "CONTENT-LENGTH", "USER-AGENT", "TCPPORT.UPNP.ORG", "CPFN.UPNP.ORG", "CPUUID.UPNP.ORG"]
+HOSTILE = ["", "abc", "-1", "9" * 25, "9" * 4301, "1.5", "0x10", "1e9", "http://[", "[::", "::", "%", "a:b:c", "\x0b", "1 2", "١٢", "é", "\t7"]
+
+
+def hostile(rng) -> bytes:
+    """a valid message in which ONE known header (present or added) carries a hostile value: any int()/float()/URL
+    parsing a future change applies to a header value on the receive path meets text it cannot parse"""
+    name, val = rng.choice(HEADER_NAMES), rng.choice(HOSTILE)
+    udn, typ, loc = rng.choice(UDNS), rng.choice(TYPES), rng.choice(LOCS)
+    c = rng.randrange(4)
+    if c == 0:
+        d = notify(rng.choice(["ssdp:alive", "ssdp:update", "ssdp:byebye"]), udn, typ, loc, rng.choice(MAX_AGES + [None]))
+    elif c == 1:
+        d = response(udn, typ, loc, rng.choice(MAX_AGES + [None]))
+    else:
+        d = msearch(rng.choice(STS[:9]), rng.choice(["1", None, "0"]))
+    ls = d.split(b"\r\n")
+    line = f"{name}:{val}".encode("utf-8", "surrogateescape")
+    for i in range(1, len(ls)):
+        if ls[i].upper().startswith(name.encode() + b":"):
+            ls[i] = line
+            break
+    else:
+        ls.insert(rng.randrange(1, max(2, len(ls) - 2)), line)
+    return b"\r\n".join(ls)
+
+
 def seq_prefix(rng, n: int) -> List[list]:
     """valid traffic that fills the tracker"""
     ops = []
@@ -512,6 +541,15 @@ def gen_part(ctx: Ctx, kind: str, n: int, prefix: str) -> List[Case]:
                 d = valid_datagram(rng)
                 ops.append([rng.choice(EPS), d.hex(), list(rng.choice(SRCS)), list(rng.choice(LOCALS) or []) or None, rng.choice(GAPS), "valid"])
             add(ops, target=rng.choice(["", "", "192.168.1.7", "fe80::1%3"]))
+    elif kind == "hostile":
+        for _ in range(n):
+            ops = seq_prefix(rng, rng.choice([0, 1, 3]))
+            d = hostile(rng)
+            if not in_model(d):
+                continue
+            for ep in rng.sample(EPS, 3):
+                ops.append([ep, d.hex(), list(rng.choice(SRCS)), list(rng.choice(LOCALS) or []) or None, rng.choice(GAPS), "hostile"])
+            add(ops, target=rng.choice(["", "", "192.168.1.7"]))
     elif kind == "mutated":
         # mutated stream inside valid traffic
         for _ in range(n):
@@ -546,13 +584,13 @@ def generate(ctx: Ctx) -> List[Case]:
     for i, rec in enumerate(CORPUS):
         cases.append(run_recipe(ctx, rec, f"corpus{i}"))
     if not ctx.thorough:
-        for kind, n in (("targeted", 1), ("valid", 1200), ("mutated", 1800)):
+        for kind, n in (("targeted", 1), ("hostile", 700), ("valid", 1000), ("mutated", 1500)):
             cases += gen_part(ctx, kind, n, kind[0])
         return cases
     import multiprocessing as mp
 
     jobs = []
-    for kind, n, chunks in (("targeted", 1, 8), ("valid", 2200, 16), ("mutated", 2000, 24)):
+    for kind, n, chunks in (("targeted", 1, 8), ("hostile", 1500, 8), ("valid", 2000, 16), ("mutated", 1800, 24)):
         for c in range(chunks):
             jobs.append(("thorough", ctx.rng.randrange(1 << 30), kind, n, f"{kind[0]}{c}-"))
     with mp.Pool(min(16, mp.cpu_count())) as pool:
